@@ -31,6 +31,21 @@ class C05(vlib.Check):
         for ty, L in lim.items():
             for h in directed_buf_histories(ty, L):
                 yield 'buf %s 4 %s' % (ty, ';'.join(h))
+        # two objects given the SAME value along DIFFERENT histories (one fresh, one that went local -> heap -> local, was
+        # moved from, cleared, re-allocated ...): they must be indistinguishable — the harness compares every pair of live
+        # objects with ==, != and compare() after every operation
+        for ty, L in lim.items():
+            long_u = ''.join('%0*x' % ({'c': 2, 'w': 8, 'u16': 4, 'u32': 8}[ty], 0x61 + i % 20) for i in range(3 * L))
+            w = {'c': 2, 'w': 8, 'u16': 4, 'u32': 8}[ty]
+            for k in (0, 1, 2, L - 1):
+                for first in (2, L - 1):
+                    a = ''.join('%0*x' % (w, 0x41 + i) for i in range(first))
+                    val = ('%0*x' % (w, 0x63)) * k or '.'
+                    for route in (['asg,0,1', 'alloc,0,%d,99' % k], ['asg,0,1', 'allocfill,0,%d,99' % k],
+                                  ['masg,0,1', 'alloc,0,%d,99' % k], ['asg,0,1', 'clear,0', 'alloc,0,%d,99' % k],
+                                  ['asg,0,1', 'move,3,0', 'alloc,0,%d,99' % k, 'del,3'], ['asg,0,1', 'asg,0,2']):
+                        yield 'buf %s 4 %s' % (ty, ';'.join(['new,0,' + a, 'new,1,' + long_u, 'new,2,' + val] + route + ['del,0', 'del,1', 'del,2']))
+                    yield 'buf %s 4 %s' % (ty, ';'.join(['new,1,' + long_u, 'new,2,' + val, 'copy,0,1', 'alloc,0,%d,99' % k, 'del,0', 'del,1', 'del,2']))
         n = 250 if tier == 'quick' else 40000
         for ty, L in lim.items():
             for _ in range(n):
